@@ -346,3 +346,63 @@ def crc_checksum(c):
     v = Lin.var(cid)
     c.st.sys.add_range(v, 0, (1 << 32) - 1)
     return [(c.st, Num(v))]
+
+
+# ------------------------------------------------------------------------------------------------ integers as bytes
+
+@first(r"^core::num::<impl (u16|u32|u64|u128)>::to_be_bytes$")
+def int_to_be_bytes(c):
+    """the big-endian bytes of a number: an identified content `be<bits>:<the number>` (equal numbers, equal bytes)"""
+    bits = int(re.search(r"impl u(\d+)>", c.name).group(1))
+    v = c.args[0]
+    src = None
+    if isinstance(v, Num):
+        src = ("be%d:%r" % (bits, c.st.sys.reduce(v.e)), Lin.const(0))
+    return [(c.st, Seq(Lin.const(bits // 8), None, None, None, src))]
+
+
+@first(r"^core::num::<impl (u16|u32|u64|u128)>::from_be_bytes$")
+def int_from_be_bytes(c):
+    bits = int(re.search(r"impl u(\d+)>", c.name).group(1))
+    v = c.deref(c.args[0])
+    w = v.content() if isinstance(v, Seq) else None
+    if w is not None and w[0] not in ("cat", "patch", "sub"):
+        m = re.match(r"^be(\d+):(.*)$", str(w[0]))
+        if m and int(m.group(1)) == bits and c.st.sys.entails_eq(w[1]):
+            pass
+        name = "rd%d@%s+%r" % (bits, w[0], c.st.sys.reduce(w[1]))
+        e = Lin.var(name)
+        c.st.sys.add_range(e, 0, (1 << bits) - 1)
+        c.it.purefun[name] = set(w[1].t)
+        if c.it.track_content:
+            c.st.cells["ghost:rd:%s:%d:%s:%d" % (c.fr.body.key, c.bb, w[0], bits // 8)] = Struct({0: Num(e), 1: Num(w[1])})
+        return [(c.st, Num(e))]
+    return [(c.st, c.top_ret())]
+
+
+# ------------------------------------------------------------------------------------------------ comparing byte strings
+
+BYTES_EQ = (r"^std::cmp::impls::<impl std::cmp::PartialEq(<.*>)? for &(mut )?\[u8(; \d+)?\]>::(eq|ne)$"
+            r"|^std::array::equality::<impl std::cmp::PartialEq(<.*>)? for \[u8; \d+\]>::(eq|ne)$"
+            r"|^core::slice::cmp::<impl std::cmp::PartialEq(<\[u8\]>)? for \[u8\]>::(eq|ne)$"
+            r"|^std::vec::partial_eq::<impl std::cmp::PartialEq(<.*>)? for std::vec::Vec<u8>>::(eq|ne)$")
+
+
+@first(BYTES_EQ)
+def bytes_eq(c):
+    """equality of two byte strings: in content-tracking mode the outcome is decided once per path and leaves an event"""
+    a, b = as_seq(c, c.args[0]), as_seq(c, c.args[1])
+    ne = c.name.endswith("::ne")
+    if not c.it.track_content or a is None or b is None:
+        return [(c.st, TOP)]
+    if a.content() is not None and a.content() == b.content() and c.st.sys.entails_eq(a.len - b.len):
+        return [(c.st, Cond("const", not ne))]
+    s_eq, s_ne = c.st, c.st.copy()
+    event(s_eq, "bytes-eq", a, b, True)
+    event(s_ne, "bytes-eq", a, b, False)
+    out = []
+    s_eq.sys.add_eq(a.len - b.len)
+    if not s_eq.sys.bottom:
+        out.append((s_eq, Cond("const", not ne)))
+    out.append((s_ne, Cond("const", ne)))
+    return out
